@@ -10,7 +10,7 @@ from vf.engine import Violation, InvalidCase
 from vf.fixtures import check, expect_raises, sized_lists, near_pow2, wone_of
 
 PROPERTY = "C02"
-BUDGET = {"quick": 1600, "thorough": 5000}
+BUDGET = {"quick": 4000, "thorough": 12000}
 RULE = ("Up to 5 systems (plain System subclasses and Collector subclasses, whose constructor forwards the window) with start in [-6,10], frequency in [1,6] u {17}, end in {default sys.maxsize} u [start-2,start+12], each "
         "registered at a generated timestep (also after its start); scripts (1-25 requests) of execute(), execute(n), "
         "systems.execute_systems() and invalid requests execute(0|-3|1.0|2.5|'2'|None). Oracle: closed form runs(t) <=> registered "
@@ -29,31 +29,39 @@ BAD = {"zero": 0, "neg": -3, "float1": 1.0, "float": 2.5, "str": "2", "none": No
 
 
 class Win(System):
-    def __init__(self, id, model, log, **kw):
-        super().__init__(id, model, **kw)
+    def __init__(self, id, model, log, positional=False, **kw):
+        if positional:          # the documented parameter order: id, model, priority, frequency, start, end
+            super().__init__(id, model, kw.get("priority", 0), kw.get("frequency", 1), kw.get("start", 0), *([kw["end"]] if "end" in kw else []))
+        else:
+            super().__init__(id, model, **kw)
         self.log = log
+        self.clock = model          # the model whose scheduler runs this system (differs from self.model for a system built for another model)
 
     def execute(self):
-        self.log.append((self.model.systems.timestep, self.id))
+        self.log.append((self.clock.systems.timestep, self.id))
 
 
 class WinCollector(Collector):
     """collectors are systems too: their constructor forwards the window"""
 
-    def __init__(self, id, model, log, **kw):
-        super().__init__(id, model, priority=0, **kw)       # same priority as the plain systems: order = registration order (C01)
+    def __init__(self, id, model, log, positional=False, **kw):
+        if positional:
+            super().__init__(id, model, 0, kw.get("frequency", 1), kw.get("start", 0), *([kw["end"]] if "end" in kw else []))
+        else:
+            super().__init__(id, model, priority=0, **kw)       # same priority as the plain systems: order = registration order (C01)
         self.log = log
+        self.clock = model
 
     def collect(self):
-        self.log.append((self.model.systems.timestep, self.id))
+        self.log.append((self.clock.systems.timestep, self.id))
 
 
 class Spawner(System):
     """always-on system that, at one timestep, registers another system from inside execute() (the window predicate must
     keep holding for everybody: exactly one run per due timestep, also for the system that does the registering)"""
 
-    def __init__(self, model, log, at, make):
-        super().__init__("spawner", model)
+    def __init__(self, model, log, at, make, once=False):
+        super().__init__("spawner", model, **({"start": at, "end": at} if once else {}))   # once: due in the spawning timestep only
         self.log, self.at, self.make, self.done = log, at, make, False
 
     def execute(self):
@@ -71,6 +79,18 @@ def runs(s, t):
 def play(case, expand):
     model = Model()
     log = []
+    donor = decoy = None
+    if any(s.get("foreign") for s in case["systems"][:80]):
+        donor = Model()             # systems flagged 'foreign' are built for THIS model and then registered with the tested one;
+        donor.execute(3)            # its clock differs from the tested model's at every moment
+    if case.get("decoy"):
+        decoy = Model()             # a second model alive at the same time, same system ids, other windows, other clock
+        junk = []
+        for i, s0 in enumerate(case["systems"][:80]):
+            if isinstance(s0.get("idkind", "str"), str) and s0.get("idkind", "str") in ("str", "spaces"):
+                sid0 = f"w {i} é" if s0.get("idkind") == "spaces" else f"w{i}"
+                decoy.systems.add_system(Win(sid0, decoy, junk, start=int(s0["start"]) + 1, frequency=int(s0["freq"]) + 1))
+        decoy.execute(2)
     specs = case["systems"][:80]
     for s in specs:
         if int(s["freq"]) < 1:
@@ -93,7 +113,8 @@ def play(case, expand):
             if sp_spec.get("end") is not None:
                 kw["end"] = int(sp_spec["end"])
             return Win("wS", model, log, **kw)
-        model.systems.add_system(Spawner(model, log, sp_at, make))
+        sp_once = bool(spawn.get("once"))
+        model.systems.add_system(Spawner(model, log, sp_at, make, once=sp_once))
 
     reg_time = {}
     names = {}
@@ -104,7 +125,7 @@ def play(case, expand):
         during the step at sp_at. The spawned system's own registration timestep is left open (0 or 1 runs): see sync()."""
         rows = []
         if spawn:
-            rows.append(((0, (-1, 0, 0)), "spawner", None))
+            rows.append(((0, (-1, 0, 0)), "spawner", {"start": sp_at, "end": sp_at, "freq": 1} if sp_once else None))
             if t > sp_at:
                 rows.append(((-sp_prio, (sp_at, 1, 0)), "wS", sp_spec))
         for i in registered:
@@ -130,12 +151,14 @@ def play(case, expand):
                 kw["end"] = int(s["end"])
             sid = {"int": 1000 + i, "tuple": ("w", i), "empty": "" if i == 0 else f"w{i}", "spaces": f"w {i} é"}.get(s.get("idkind"), f"w{i}")
             names[i] = sid
+            obj = (WinCollector if s.get("coll") else Win)(sid, donor if s.get("foreign") else model, log, positional=bool(s.get("ctor_pos")), **kw)
+            obj.clock = model
             try:
-                model.systems.add_system((WinCollector if s.get("coll") else Win)(sid, model, log, **kw))
+                model.systems.add_system(obj)
             except (TypeError, ValueError):
-                if isinstance(sid, str):
+                if isinstance(sid, str) and not s.get("foreign"):
                     raise
-                continue                            # a tree may insist on str ids (the documented type): then the system simply is not there
+                continue                            # a tree may insist on str ids (the documented type) or on its own systems: then the system simply is not there
             registered.append(i)
             reg_time[i] = T
             if T > int(s["start"]):
@@ -147,6 +170,9 @@ def play(case, expand):
         expected.extend(expect_timestep(T))
         call()
         T += 1
+        for other in (donor, decoy):
+            if other is not None:
+                other.execute(2)
 
     def sync(where):
         if model.timestep != T or model.systems.timestep != T:
@@ -183,7 +209,10 @@ def play(case, expand):
                 for _ in range(n):
                     expected.extend(expect_timestep(T))
                     T += 1
-                model.execute(n)
+                if n % 2:
+                    model.execute(n=n)      # by keyword
+                else:
+                    model.execute(n)
         elif kind == "bad":
             val = BAD[op["n"]]
             before = (model.timestep, list(log))
@@ -236,6 +265,10 @@ def run_case(case):
         labels.append("invalid-request")
     if case.get("spawn"):
         labels.append("mid-timestep-registration")
+    if any(s.get("foreign") for s in specs):
+        labels.append("system-built-for-another-model")
+    if case.get("decoy"):
+        labels.append("second-model-alive")
     if any(o["op"] == "stepn" and int(o["n"]) > 64 for o in case["script"]):
         labels.append("execute(n>64)")
     if len(specs) > 16:
@@ -253,7 +286,8 @@ def strategy(tier):
         end = draw(wone_of(st.none(), st.none(), st.integers(start - 2, start + 12)))
         reg = draw(wone_of(st.just(0), st.just(0), st.integers(0, 12)))
         return {"start": start, "freq": freq, "end": end, "reg_at": reg, "coll": draw(st.sampled_from([False, False, True])),
-                "idkind": draw(st.sampled_from(["str", "str", "str", "str", "int", "tuple", "empty", "spaces"]))}
+                "idkind": draw(st.sampled_from(["str", "str", "str", "str", "int", "tuple", "empty", "spaces"])),
+                "foreign": draw(st.sampled_from([False] * 9 + [True])), "ctor_pos": draw(st.booleans())}
     op = wone_of(st.just({"op": "step"}), st.just({"op": "step"}), st.just({"op": "exec_systems"}),
                    st.builds(lambda n: {"op": "stepn", "n": n}, st.integers(1, 5)),
                    st.builds(lambda n: {"op": "stepn", "n": n}, st.integers(2, 5)),
@@ -262,12 +296,18 @@ def strategy(tier):
     long_script = st.builds(lambda a, b, c: a + [b] + c, sized_lists(op, 0, 4), bign, sized_lists(op, 0, 4))
     many = st.lists(system(), min_size=17, max_size=70)
     spawn = st.one_of(st.none(), st.none(), st.fixed_dictionaries({"at": st.integers(0, 8), "prio": st.sampled_from([-1, 0, 1, 1]),
-                                                                   "spec": system()}))
+                                                                   "spec": system(), "once": st.booleans()}))
+    # sparse schedules: nobody but the spawned system is due at most timesteps (an 'idle timestep' shortcut must still see it)
+    sparse_sys = st.fixed_dictionaries({"start": st.integers(0, 3), "freq": st.sampled_from([5, 6, 17]), "end": st.one_of(st.none(), st.integers(0, 4)),
+                                        "reg_at": st.just(0), "coll": st.booleans(), "idkind": st.just("str"), "foreign": st.just(False)})
+    sparse = st.fixed_dictionaries({"systems": st.lists(sparse_sys, min_size=0, max_size=2), "script": sized_lists(op, 8, 20),
+                                    "spawn": st.fixed_dictionaries({"at": st.integers(0, 4), "prio": st.sampled_from([-1, 0, 1]), "spec": system(),
+                                                                    "once": st.just(True)}), "decoy": st.just(False)})
     small = st.fixed_dictionaries({"systems": st.lists(system(), min_size=1, max_size=5), "script": sized_lists(op, 1, 25),
-                                   "spawn": spawn})
+                                   "spawn": spawn, "decoy": st.sampled_from([False] * 5 + [True])})
     long_call = st.fixed_dictionaries({"systems": st.lists(system(), min_size=1, max_size=4), "script": long_script, "spawn": st.none()})
     crowded = st.fixed_dictionaries({"systems": many, "script": sized_lists(op, 3, 12), "spawn": spawn})
-    return wone_of(*([small] * 12 + [long_call, long_call, crowded]))
+    return wone_of(*([small] * 11 + [sparse, sparse, long_call, long_call, crowded]))
 
 
 def exhaustive(tier):
